@@ -9,3 +9,5 @@ import Spade.Properties.C02
 #print axioms Spade.C02_convex_hull_size
 #print axioms Spade.triSeparated_disjoint
 #print axioms Spade.sepBy_excludes
+#print axioms Spade.C02_euler_invariant_on_model
+#print axioms Spade.C02_insert_effect_on_model
